@@ -150,7 +150,7 @@ def mods_for(r, dlp_dims, p):
         return ("-inf" if neg else "inf") if x is None else lpgen.qs(x)
     for _ in range(r.randint(1, 3)):
         m, n = len(lhs), len(lo)
-        k = r.randrange(13)
+        k = r.randrange(15)
         v = F(r.randint(-6, 6))
         if k == 0 and n > 0:
             j = r.randrange(n)
@@ -207,6 +207,9 @@ def mods_for(r, dlp_dims, p):
             lo.pop()
             up.pop()
             out.append(("rmcol", "rmcol %d" % j))
+        elif k in (13, 14) and m > 0 and n > 0:
+            # a coefficient changed with a live basis: the factorization has to follow (or the basis be dropped), in either representation
+            out.append(("chgelem", "chgelem %d %d %d" % (r.randrange(m), r.randrange(n), r.choice([-3, -2, -1, 1, 2, 3, 4, 0]))))
         elif k == 11 and m > 2:
             # several rows at once through the permutation interface; the removed rows are mostly not the last ones, so rows of the tail move
             # into the holes (SPxLPBase::doRemoveRows compacts: surviving rows keep their relative order)
@@ -271,7 +274,7 @@ def part_histories(ck, exe, model):
         else:
             p = bc.gen_small(r, r.randint(0, 4), r.randint(1, 4))
         cfg = clean_cfg(r)
-        kind = r.choice(["plain", "plain", "abort", "setbasis", "mods", "mods", "outside", "rmmulti", "fixcol", "fixcol"])
+        kind = r.choice(["plain", "plain", "abort", "setbasis", "mods", "mods", "outside", "rmmulti", "fixcol", "fixcol", "chgelem", "chgelem"])
         cid = "h%d" % k
         steps = ["NEW " + lpgen.cfg_text(cfg)]
         if kind == "plain":
@@ -295,6 +298,21 @@ def part_histories(ck, exe, model):
             vt = lpgen.qs(Fraction(v))
             steps += ["SOLVE cold0 S", "DUMP after-solve A", "MOD chgbounds chgbounds %d %s %s" % (j, vt, vt), "DUMP after-mod:chgbounds A",
                       "SOLVE warm S", "DUMP after-warm A", "SOLVE cold C", "SOLVE coldns C simplifier=0"]
+        elif kind == "chgelem" and p.m >= 1 and p.n >= 1:
+            # a coefficient of the solved LP is changed (often an entry of the basis matrix) and the LP is solved again from the kept
+            # basis; no scaler, no simplifier, so that the solver's own basis and factorization are what the second solve starts from
+            cfg = dict(cfg, scaler=0, simplifier=0, representation=r.choice([1, 2, 2]))
+            cfg.pop("starter", None)         # the sum / vector starters without simplifier are known findings of C01 / C17
+            nz = [(i, j, a) for i, row in enumerate(p.rows) for j, a in row[1].items() if a != 0]
+            steps = ["NEW " + lpgen.cfg_text(cfg), "SOLVE cold0 S", "DUMP after-solve A"]
+            for _ in range(r.randint(1, 2)):
+                if nz and r.random() < 0.8:
+                    i, j, a = r.choice(nz)
+                    v = a * r.choice([2, 3, -1]) + r.choice([0, 1])
+                else:
+                    i, j, v = r.randrange(p.m), r.randrange(p.n), Fraction(r.choice([-3, -2, -1, 1, 2, 3]))
+                steps += ["MOD chgelem chgelem %d %d %s" % (i, j, lpgen.qs(Fraction(v))), "DUMP after-mod:chgelem A"]
+            steps += ["SOLVE warm S", "DUMP after-warm A", "SOLVE cold C", "SOLVE coldns C simplifier=0"]
         elif kind == "rmmulti":
             # several rows or columns removed at once right after a solve (the descriptor is live): BasisChangeModel predicts the descriptor
             steps += ["SOLVE cold0 S", "DUMP after-solve A"]
